@@ -841,6 +841,23 @@ func (tr *Tr) builtin(fr *frame, b *ssa.Builtin, cc *ssa.CallCommon, args []Val,
 		fr.heap.m["CHCLOSED"] = tr.define(C.heapSort["CHCLOSED"], sto(C.hget(fr.heap, "CHCLOSED"), ch.T, "true"), "CHCLOSED")
 		return Val{Ty: rt}
 	case "clear":
+		if mt, ok := args[0].Ty.Underlying().(*types.Map); ok {
+			// clear(m): no key is present afterwards
+			ks, vs := C.sortOf(mt.Key()), C.sortOf(mt.Elem())
+			dom, _, ln := C.mapKeys(ks, vs)
+			m := args[0].T
+			fr.heap.m[dom] = tr.define(C.heapSort[dom], ite(eq(m, "0"), C.hget(fr.heap, dom), sto(C.hget(fr.heap, dom), m, "((as const (Array "+ks+" Bool)) false)")), dom)
+			fr.heap.m[ln] = tr.define(C.heapSort[ln], ite(eq(m, "0"), C.hget(fr.heap, ln), sto(C.hget(fr.heap, ln), m, bvI(0, 64))), ln)
+			return Val{Ty: rt}
+		}
+		if st, ok := args[0].Ty.Underlying().(*types.Slice); ok {
+			// clear(s): the elements of s become zero values; modelled as arbitrary contents of its array
+			ek := C.elemKey(C.sortOf(st.Elem()))
+			na := tr.declareConst("(Array "+bv64+" "+C.sortOf(st.Elem())+")", "cleared")
+			fr.heap.m[ek] = tr.define(C.heapSort[ek], sto(C.hget(fr.heap, ek), app("s.arr", args[0].T), na), ek)
+			tr.vc.Abstract["builtin-clear(slice contents havoc)"]++
+			return Val{Ty: rt}
+		}
 		tr.vc.Abstract["builtin-"+b.Name()]++
 		return Val{Ty: rt}
 	case "ssa:wrapnilchk":
@@ -1062,6 +1079,15 @@ func (tr *Tr) loopModSet(fr *frame, li *loopInfo) (map[string]bool, bool) {
 					mt := cc.Args[0].Type().Underlying().(*types.Map)
 					d, v, l := tr.C.mapKeys(tr.C.sortOf(mt.Key()), tr.C.sortOf(mt.Elem()))
 					mod[d], mod[v], mod[l] = true, true, true
+				case "clear":
+					if mt, ok := cc.Args[0].Type().Underlying().(*types.Map); ok {
+						d, v, l := tr.C.mapKeys(tr.C.sortOf(mt.Key()), tr.C.sortOf(mt.Elem()))
+						mod[d], mod[v], mod[l] = true, true, true
+					} else if st, ok := cc.Args[0].Type().Underlying().(*types.Slice); ok {
+						mod[tr.C.elemKey(tr.C.sortOf(st.Elem()))] = true
+					}
+				case "close":
+					mod["CHCLOSED"] = true
 				}
 				return
 			}
